@@ -3,36 +3,47 @@
 
 A *feature* is a piece of syntax with the edition that introduced it.  The minifier has a fixed set
 of rewrites that can introduce a feature the input did not use; each is guarded by
-`minVersion(edition)`.  `emits` says when the output uses a feature.
+`minVersion(edition)` (the property shorthand since 2252d4e, former K-C16-3).
+`emits` says when the output uses a feature.
 -/
 namespace Verif.Model.Options
 
 inductive Feature where
-  | templateLiteral   -- ES2015: '…\n…' printed as `…` with raw newlines
-  | exponent          -- ES2016: Math.pow(a,b) printed as a**b
-  | optionalCatch     -- ES2019: catch(e){…} with unused e printed as catch{…}
-  | nullish           -- ES2020: a==null?b:a printed as a??b
+  | templateLiteral    -- ES2015: '…\n…' printed as `…` with raw newlines
+  | propertyShorthand  -- ES2015: {a:a} printed as {a}
+  | exponent           -- ES2016: Math.pow(a,b) printed as a**b
+  | optionalCatch      -- ES2019: catch(e){…} with unused e printed as catch{…}
+  | nullish            -- ES2020: a==null?b:a printed as a??b
+  | optionalChain      -- ES2020: a==null?undefined:a.b printed as a?.b
   deriving DecidableEq, Repr
 
 def Feature.since : Feature → Nat
   | .templateLiteral => 2015
+  | .propertyShorthand => 2015
   | .exponent => 2016
   | .optionalCatch => 2019
   | .nullish => 2020
+  | .optionalChain => 2020
 
 /-- `(o *Minifier) minVersion(version)`: `o.Version == 0 || version <= o.Version` -/
 def minVersion (target : Nat) (v : Nat) : Bool := target == 0 || v ≤ target
 
-/-- the guard literal at the rewrite site of a feature (regenerated facts must equal these) -/
+/-- the guard literal at the rewrite site of a feature (the regenerated facts `Gen.JsVersionGates` must show exactly
+    these) -/
 def guardOf : Feature → Nat
   | .templateLiteral => 2015
+  | .propertyShorthand => 2015
   | .exponent => 2016
   | .optionalCatch => 2019
   | .nullish => 2020
+  | .optionalChain => 2020
+
+/-- does the rewrite that introduces `f` fire for this target? -/
+def gatePasses (target : Nat) (f : Feature) : Bool := minVersion target (guardOf f)
 
 /-- does the output use feature `f`?  Either the input already did (printed through), or the rewrite
     that introduces it is applicable and its guard passes -/
 def emits (target : Nat) (f : Feature) (inputHas rewriteApplicable : Bool) : Bool :=
-  inputHas || (rewriteApplicable && minVersion target (guardOf f))
+  inputHas || (rewriteApplicable && gatePasses target f)
 
 end Verif.Model.Options
